@@ -22,7 +22,9 @@
 //            (structure-only)
 //   legacy:* literal JSON texts in the legacy spellings that only the reader knows (see
 //            problems/c19_legacy.hh): decoded by cmp_raw and compared with the reader's result,
-//            then round trip + navigation
+//            then round trip + navigation; four patched copies of text 1 for the envelope:
+//            "_units" native (reads like the original), "_units" foreign (the reader must throw),
+//            "_format": "orange", and no cell_names / surface_names keys at all
 //
 // Oracles on every input:
 //   (a) a -> json -> dump() -> parse -> from_json -> b; own deep comparison of a and b on the
@@ -38,7 +40,10 @@
 //       volume / surface / level sequences and bit-identical distances, positions and safeties.
 //   (e) families file, row, arr, legacy: the text stored as <tmp>/<name>.org.json and loaded with
 //       OrangeParams("<name>.org.json") / OrangeParams("<name>.gdml") (fallback without Geant4)
-//       navigates exactly like OrangeParams(a) (signatures "file-entry/...").
+//       navigates exactly like OrangeParams(a) (signatures "file-entry/..."); the same for a
+//       plain "<other>.json" name (not ".org.json").
+//   (f) the written text carries "_format": "ORANGE", an integer "_version" and "_units" == the
+//       unit system of this build (signatures "writer:header-*").
 #include <cmath>
 #include <cstring>
 #include <filesystem>
@@ -513,6 +518,23 @@ void cmp_raw(Reporter const& rp, std::string const& sig, Json const& j, OrangeIn
                     fmt("text has tol {%s,%s}, input has {%s,%s}", vf::dstr(tol.rel).c_str(),
                         vf::dstr(tol.abs).c_str(), vf::dstr(in.tol.rel).c_str(),
                         vf::dstr(in.tol.abs).c_str()));
+        if (sig == "writer")
+        {
+            // (d2) envelope written by to_json: format name, integer version and the unit system
+            // of this build (the reader refuses a foreign one - without the key it cannot)
+            auto fi = j.find("_format");
+            auto vi = j.find("_version");
+            auto ui = j.find("_units");
+            if (fi == j.end() || !fi->is_string() || fi->get<std::string>() != "ORANGE")
+                rp.fail("writer:header-format", "the written text has no \"_format\": \"ORANGE\"");
+            if (vi == j.end() || !vi->is_number_integer())
+                rp.fail("writer:header-version", "the written text has no integer \"_version\"");
+            if (ui == j.end() || !ui->is_string()
+                || ui->get<std::string>() != celeritas::to_cstring(celeritas::UnitSystem::native))
+                rp.fail("writer:header-units",
+                        fmt("the written text does not record the unit system of this build (\"_units\": \"%s\")",
+                            celeritas::to_cstring(celeritas::UnitSystem::native)));
+        }
         Json const& unis = j.at("universes");
         if (unis.size() != in.universes.size())
         {
@@ -1200,17 +1222,21 @@ void check_file_entry(vf::Run& R, Program const& prog, OrangeInput const& a, Ora
     fs::path const base = dir / "geo.v1.json-like";
     std::string const json_name = base.string() + ".org.json";
     std::string const gdml_name = base.string() + ".gdml";
+    // (d2) a plain "<name>.json" (not ".org.json") is a documented JSON name as well; its base
+    // differs so that the .gdml fallback cannot pick it up
+    std::string const plain_name = (dir / "plain.v2").string() + ".json";
+    for (std::string const& n : {json_name, plain_name})
     {
-        std::ofstream f(json_name);
+        std::ofstream f(n);
         f << a;  // operator<< (dump(0))
         if (!f)
         {
-            R.harness_error("cannot write " + json_name);
+            R.harness_error("cannot write " + n);
             return;
         }
     }
     R.count("file_entry_programs");
-    for (std::string const& name : {json_name, gdml_name})
+    for (std::string const& name : {json_name, gdml_name, plain_name})
     {
         bool const gdml = (name == gdml_name);
         if (gdml && CELERITAS_USE_GEANT4)
@@ -1225,12 +1251,12 @@ void check_file_entry(vf::Run& R, Program const& prog, OrangeInput const& a, Ora
         }
         catch (std::exception const& e)
         {
-            rp.fail(gdml ? "throws(gdml-name)" : "throws(json-name)",
+            rp.fail(gdml ? "throws(gdml-name)" : name == plain_name ? "throws(plain-json-name)" : "throws(json-name)",
                     fmt("OrangeParams(\"%s\") threw although %s exists and OrangeParams(input) "
                         "succeeds: %.400s", name.c_str(), json_name.c_str(), e.what()));
             continue;
         }
-        R.tag(gdml ? "file-entry:gdml-name-fallback" : "file-entry:json-name");
+        R.tag(gdml ? "file-entry:gdml-name-fallback" : name == plain_name ? "file-entry:plain-json-name" : "file-entry:json-name");
         NavStats st;
         uint64_t oh = 0;
         nav_compare(rp, pa, *pf, rs, st, oh);
@@ -1246,6 +1272,28 @@ void run_program(vf::Run& R, Program const& prog, RaySet const& rs_default, RayS
     std::string const family = prog.id.substr(0, prog.id.find(':'));
 
     OrangeInput a;
+    if (prog.expect_throw)
+    {
+        // a text the reader is documented to refuse (foreign unit system)
+        R.count("evaluations");
+        R.count("programs:" + family);
+        for (auto const& t : prog.extra_tags)
+            R.tag(t);
+        R.nontrivial(vf::hash_str(prog.id));
+        try
+        {
+            a = prog.make();
+            rp.fail("reader:accepts-foreign-units",
+                    fmt("from_json accepted a text whose \"_units\" is not the unit system of this build (%s): "
+                        "lengths would be misread silently",
+                        celeritas::to_cstring(celeritas::UnitSystem::native)));
+        }
+        catch (std::exception const&)
+        {
+            R.tag("r:refused-as-documented");
+        }
+        return;
+    }
     try
     {
         a = prog.make();
